@@ -1,5 +1,5 @@
 """Generated inputs, rebuilt from /repo on every run: native tools, database dump, doc tables, Rust table snippets."""
-import json, os, re
+import re, json, os, re
 from . import common as C
 
 NATIVE_TARGET = os.path.join(C.BUILD, 'native')
@@ -82,4 +82,16 @@ def write_kani_tables():
     txt += 'const FONT_ENUM_ITEMS: &[u32] = &[%s];\n' % ', '.join(map(str, font))
     txt += 'const FONT_KNOWN_UNMIGRATABLE: &[u32] = &[%s];\n' % ', '.join(map(str, excluded))
     C.write_if_changed(os.path.join(C.GEN, 'k12_font_items.rs'), txt)
-    return {'doc_type_rows': rows, 'font_items': font, 'font_excluded': excluded}
+    bricks = brick_color_rows()
+    txt = '// generated from the make_brick_color! invocation in rbx_types/src/brick_color.rs by vlib/gen.py\n'
+    txt += 'const BRICK_VARIANTS: [crate::BrickColor; %d] = [%s];\n' % (len(bricks), ', '.join('crate::BrickColor::' + b[0] for b in bricks))
+    C.write_if_changed(os.path.join(C.GEN, 'k13_brick_variants.rs'), txt)
+    return {'doc_type_rows': rows, 'font_items': font, 'font_excluded': excluded, 'brick_variants': len(bricks)}
+
+
+def brick_color_rows():
+    """[(variant, name, number)] of the make_brick_color! invocation (the list of enum variants; from_number / from_name are
+    macro-generated matches over it, so a guard added in front of the match is not reflected here)."""
+    src = open(os.path.join(C.REPO, 'rbx_types/src/brick_color.rs')).read()
+    body = src[src.index('make_brick_color!({'):]
+    return [(m.group(1), m.group(2), int(m.group(3))) for m in re.finditer(r'\[\s*(\w+)\s*,\s*"([^"]*)"\s*,\s*(\d+)\s*,', body)]
